@@ -18,3 +18,37 @@ package pedersen
 //@ ensures r1 == nil && numVals >= 0 ==> len(r0) == numVals && ncalls(kdkg.NewProtocol) == numVals && ncalls(processKey) == numVals
 //@ loop 1 invariant len(shares) == $i && ncalls(kdkg.NewProtocol) == $i && ncalls(processKey) == $i
 //@ canary r1 != nil
+
+//@ pure peerIDFn Config.PeerIDs Board.IncomingValidatorPubKeyShares
+
+// readBoardChannel: a successful collection holds a message from an expected peer only (at most one per peer: loop
+// invariant) and at least as many messages as there are expected peers; running out of time or context inside the collection loop is
+// always an error, never a shorter list.
+//@ func readBoardChannel
+//@ props C11
+//@ ensures r1 == nil ==> len(r0) >= len(expected)
+// (that every collected message comes from an expected peer, one per peer, is carried by the invariants of loop 2: stated
+// as a postcondition it would apply the caller's function literal under a quantifier, which the engine cannot export)
+//@ canary r1 != nil
+//@ loop 1 invariant forallk(p, expectedSet, exists(e, 0, $i, expected[e] == p))
+//@ loop 2 invariant forallk(p, expectedSet, exists(e, 0, len(expected), expected[e] == p))
+//@ loop 2 invariant forall(a, 0, len(msgs), has(seen, peerIDFn(msgs[a])) && has(expectedSet, peerIDFn(msgs[a])))
+//@ loop 2 invariant forallk(p, seen, exists(a, 0, len(msgs), peerIDFn(msgs[a]) == p))
+//@ loop 2 invariant forall(a, 0, len(msgs), forall(b, 0, a, peerIDFn(msgs[a]) != peerIDFn(msgs[b])))
+//@ loop 2 return r1 != nil
+//@ loop 2 break false
+
+// processKey: the public shares of the result are assembled from nothing but the messages one successful
+// readBoardChannel over all peers returned (each filed under the share index of the peer that sent it).
+//@ func processKey
+//@ props C11
+//@ ghost got []ValidatorPubKeyShare
+//@ ghostafter readBoardChannel: got = valPubKeyShares
+//@ callreq readBoardChannel: a2 == board.IncomingValidatorPubKeyShares() && a3 == config.PeerIDs() && ncalls(readBoardChannel) == 0
+//@ ensures r1 == nil ==> ncalls(readBoardChannel) == 1 && ncalls(board.BroadcastValidatorPubKeyShare) == 1
+//@ ensures r1 == nil ==> r0.PublicShares == publicShares && r0.PubKey == validatorPubKey && r0.SecretShare == secretShare
+//@ loop 1 invariant valPubKeyShares == got
+//@ loop 1 invariant forallk(k, oldShareRevMap, exists(a, 0, $i, config.PeerMap[got[a].PeerID].ShareIdx == k && got[a].ValidatorPubKey == oldShareRevMap[k]))
+//@ loop 1 invariant forall(j, 0, len(oldShareIndices), has(oldShareRevMap, oldShareIndices[j]))
+//@ loop 2 invariant valPubKeyShares == got
+//@ loop 2 invariant forallk(k, publicShares, has(oldShareRevMap, k))
